@@ -57,6 +57,20 @@ static void text_inputs(const std::string& s) {
     call("toon::decode_toon", [&] { auto j = jsoncons::toon::decode_toon<json>(s); std::string t; jsoncons::toon::encode_toon(j, t); return false; });
     call("uri::parse", [&] { std::error_code ec; auto u = uri::parse(s, ec); if (!ec) { std::string x = u.string(); auto r = uri("http://a/b/c/d;p?q").resolve(u); (void)r; } return (bool)ec; });
 }
+// CSV texts under the option combinations that change the shape of what the parser builds: mapping kind x subfield delimiter (space and ';')
+// x ignore_empty_values x trim, with and without a header
+static void csv_inputs(const std::string& s) {
+    static const csv::csv_mapping_kind kinds[] = {csv::csv_mapping_kind::n_rows, csv::csv_mapping_kind::n_objects, csv::csv_mapping_kind::m_columns};
+    static const char* names[] = {"n_rows", "n_objects", "m_columns"};
+    for (int mk = 0; mk < 3; ++mk) for (int sub = 0; sub < 2; ++sub) for (int ig = 0; ig < 2; ++ig) {
+        std::string ep = std::string("csv::decode_csv ") + names[mk] + (sub ? " subfield(;)" : " subfield(space)") + (ig ? " ignore_empty_values" : "");
+        call(ep.c_str(), [&] { auto o = csv::csv_options{}.assume_header(mk != 0).mapping_kind(kinds[mk]).subfield_delimiter(sub ? ';' : ' ').ignore_empty_values(ig != 0).infer_types(true);
+                               auto j = csv::decode_csv<json>(s, o); return false; });
+    }
+    call("csv::decode_csv trim+types", [&] { auto o = csv::csv_options{}.assume_header(true).trim(true).column_types("integer,string,float*").column_defaults("0,x").ignore_empty_lines(false).comment_starter('#').max_lines(3);
+                                              auto j = csv::decode_csv<ojson>(s, o); return false; });
+    call("csv cursor", [&] { std::error_code ec; csv::csv_string_cursor cur(s, csv::csv_options{}.assume_header(true).subfield_delimiter(';'), ec); while (!ec && !cur.done()) cur.next(ec); return (bool)ec; });
+}
 static void binary_inputs(const std::string& f, const std::vector<uint8_t>& b) {
     std::string s((const char*)b.data(), b.size());
     auto dec = [&](auto tag) -> json { (void)tag; if (f == "cbor") return cbor::decode_cbor<json>(b); if (f == "msgpack") return msgpack::decode_msgpack<json>(b); if (f == "ubjson") return ubjson::decode_ubjson<json>(b); return bson::decode_bson<json>(b); };
@@ -74,6 +88,12 @@ static int g_lite = 0;
 static std::vector<std::string> variants(const std::string& e) {
     std::vector<std::string> v{e}; static const char subs[] = "[](){}'\"\\*?@.,:|&!<>=0- `$^~/\xc3";
     for (size_t i = 0; i < e.size() && i < 24; ++i) { v.push_back(e.substr(0, i)); for (size_t k = (g_lite ? i % 5 : 0); k < sizeof subs - 1; k += (g_lite ? 5 : 1 + (i % 3))) { std::string m = e; m[i] = subs[k]; v.push_back(m); } }
+    // every maximal digit run replaced by numerals at and beyond the 64-bit boundaries (slice bounds and steps, indices, literals)
+    static const char* big[] = {"9223372036854775807", "9223372036854775808", "18446744073709551616", "99999999999999999999999"};
+    for (size_t i = 0; i < e.size(); ++i) if (e[i] >= '0' && e[i] <= '9' && (i == 0 || !(e[i - 1] >= '0' && e[i - 1] <= '9'))) {
+        size_t k = i; while (k < e.size() && e[k] >= '0' && e[k] <= '9') ++k;
+        for (const char* b : big) { v.push_back(e.substr(0, i) + b + e.substr(k)); if (i == 0 || e[i - 1] != '-') v.push_back(e.substr(0, i) + "-" + b + e.substr(k)); }
+    }
     return v;
 }
 static void expr_inputs(const std::string& kind, const std::string& e) {
@@ -127,8 +147,14 @@ static json_options enc_options(const mj::Value& o) {
     return r;
 }
 static void enc_inputs(const mj::Value& v, const mj::Value& o) {
-    json j = v[0].str() == "big" ? json(v[2].str(), v[1].str() == "bigint" ? semantic_tag::bigint : semantic_tag::bigdec) : bv::build<json>(v);
-    ojson oj = v[0].str() == "big" ? ojson(v[2].str(), v[1].str() == "bigint" ? semantic_tag::bigint : semantic_tag::bigdec) : bv::build<ojson>(v);
+    json j; ojson oj;
+    if (v[0].str() == "tagstr" || v[0].str() == "tagmap") {      // a string with the semantic tag whose enumerator is v[1], bare or as the value of the member "k"
+        semantic_tag tg = (semantic_tag)v[1].as_int(); json t(v[2].str(), tg); ojson ot(v[2].str(), tg);
+        if (v[0].str() == "tagmap") { j = json(json_object_arg); j.try_emplace("k", t); oj = ojson(json_object_arg); oj.try_emplace("k", ot); } else { j = t; oj = ot; }
+    } else {
+        j = v[0].str() == "big" ? json(v[2].str(), v[1].str() == "bigint" ? semantic_tag::bigint : semantic_tag::bigdec) : bv::build<json>(v);
+        oj = v[0].str() == "big" ? ojson(v[2].str(), v[1].str() == "bigint" ? semantic_tag::bigint : semantic_tag::bigdec) : bv::build<ojson>(v);
+    }
     json_options opt = enc_options(o);
     call("json::dump(options)", [&] { std::string s; j.dump(s, opt); return false; });
     call("json::dump_pretty(options)", [&] { std::string s; j.dump_pretty(s, opt); return false; });
@@ -157,6 +183,7 @@ int main(int argc, char** argv) {
         if (idx < start) return;
         mj::Value c = mj::parse(line); ++ncases; g_idx = idx; g_case = &c;
         if (c.has("t") && c["t"].is_arr() && (c["t"].size() == 0 || c["t"][0].is_int())) text_inputs(jc::units_to_string(c["t"]));
+        else if (c.has("csv")) { std::string t = jc::units_to_string(c["csv"]); csv_inputs(t); for (char& ch : t) if (ch == 'a') ch = ';'; csv_inputs(t); }   // (the same text with every 'a' turned into ';')
         else if (c.has("f") && c.has("b")) binary_inputs(c["f"].str(), bv::bytes_of(c["b"]));
         else if (c.has("e") && c["e"].is_arr()) expr_inputs("jmespath", jc::units_to_string(c["e"]));
         else if (c.has("ex")) { for (auto& x : c["ex"].a) expr_inputs("jsonpath", jc::units_to_string(x)); }
